@@ -468,7 +468,7 @@ def r123(ctx, m, cname, f, info):
         ok = True
         at = cfg.node_of(oc)
         for kw in ("xyz", "vel"):
-            v = kwarg(oc, kw)
+            v = kwarg(oc, kw, {"xyz": 1, "vel": 2}[kw])  # calculate_order(system, xyz, vel, box)
             if v is None:
                 continue
             for nm in [n for n in ast.walk(v) if isinstance(n, ast.Name)]:
@@ -866,7 +866,7 @@ def r126(ctx, m, cname, f, info):
             bad = True
     # the vel= argument itself must not be a negated expression
     for oc in [c for c in walk_local(f) if isinstance(c, ast.Call) and last_name(c) == "calculate_order"]:
-        v = kwarg(oc, "vel")
+        v = kwarg(oc, "vel", 2)
         if v is not None and any(isinstance(x, ast.UnaryOp) and isinstance(x.op, ast.USub) for x in ast.walk(v)) or (v is not None and isinstance(v, ast.IfExp)):
             ctx.bad(rid, oc, "vel= handed to calculate_order is sign-flipped/conditional in the engine: direction is applied twice")
             bad = True
